@@ -1366,12 +1366,15 @@ Qed.
 (* ======================================================================== *)
 (* 6. Tie of the hand-translated scanners to the regex sources              *)
 (* ======================================================================== *)
-(* SHA-1 of inspect.getsource(peel_off_esc_code) / getsource(remove_ansi) of the tree the
-   scanners match_csi_at / match_two_at / ansi_len were written for (regenerated into
-   Gen/Tables.v on every run).  Any edit of these two functions breaks this obligation:
-   the scanners then have to be re-validated against the new patterns and the literals
-   updated. *)
+(* SHA-1 of the regular expressions (function name, flags, pattern string) that
+   peel_off_esc_code / remove_ansi hand to the re module, observed at run time by the
+   translator (gen/gen_tables.py) in the tree the scanners match_csi_at / match_two_at /
+   ansi_len were written for, regenerated into Gen/Tables.v on every run.  An edited
+   pattern or flag breaks this obligation: the scanners then have to be re-validated
+   against the new patterns and the literals updated.  Comments, formatting and rewrites of
+   the statements around the patterns do not change it (those are covered by the
+   correspondence check). *)
 Lemma regex_sources_tie :
-  peel_src_hash = [99; 51; 50; 97; 56; 98; 49; 97; 55; 98; 100; 52; 100; 56; 55; 99; 102; 102; 51; 54; 102; 56; 100; 48; 98; 56; 56; 98; 56; 99; 50; 48; 54; 53; 97; 99; 101; 56; 52; 51] /\
-  remove_ansi_src_hash = [56; 49; 52; 49; 49; 101; 51; 99; 54; 101; 98; 50; 101; 98; 53; 97; 49; 55; 102; 49; 53; 101; 97; 52; 101; 48; 52; 51; 54; 54; 53; 102; 53; 97; 54; 51; 52; 52; 54; 50].
+  peel_src_hash = [57; 49; 53; 48; 49; 50; 52; 50; 57; 102; 55; 49; 57; 49; 97; 54; 100; 102; 50; 56; 57; 102; 98; 51; 97; 55; 56; 55; 51; 55; 101; 97; 55; 101; 51; 52; 51; 57; 57; 53] /\
+  remove_ansi_src_hash = [97; 53; 100; 100; 56; 50; 97; 53; 101; 51; 50; 52; 50; 102; 48; 97; 100; 50; 50; 57; 97; 53; 48; 50; 56; 99; 57; 55; 101; 57; 102; 99; 100; 56; 50; 97; 54; 101; 98; 100].
 Proof. split; reflexivity. Qed.
